@@ -4,6 +4,7 @@
 # SEED_WT=<dir>: instead of patching /repo itself, use a scratch worktree <dir> of /repo's HEAD and point every tool at it
 # through VERIF_REPO (used while other jobs read /repo); the worktree is removed at the end.
 set -u
+V=${VERIF_DIR:-/verif}   # VERIF_DIR=<copy of /verif>: run from a copy (e.g. a `vp run` snapshot) so that the checks of /verif itself are not disturbed
 R=/repo
 if [ -n "${SEED_WT:-}" ]; then
   R=$SEED_WT
@@ -12,7 +13,7 @@ if [ -n "${SEED_WT:-}" ]; then
 fi
 cd $R || exit 2
 for name in "$@"; do
-  d=/verif/seeded/$name
+  d=$V/seeded/$name
   if ! git diff --quiet; then echo "/repo is dirty"; exit 2; fi
   git apply "$d/patch.diff" || { echo "patch $name does not apply"; continue; }
   [ "${CHECKS:-}" = "own" ] && [ -z "${MATRIX_OUT:-}" ] && [ -s $d/matrix.txt ] && [ "$(wc -l < $d/matrix.txt)" -ge 20 ] && { git -C $R checkout -- .; echo "skip $name (full matrix present)"; continue; }
@@ -20,14 +21,14 @@ for name in "$@"; do
   own=$(python3 -c "import json;print(json.load(open('$d/meta.json'))['breaks_property'])" 2>/dev/null || echo "${name%%-*}")
   if [ "${CHECKS:-}" = "own" ]; then list="$own"; else list="${CHECKS:-C01 C02 C03 C04 C05 C06 C07 C08 C09 C10 C11 C12 C13 C14 C15 C16 C17 C18 C19 C20}"; fi
   for c in $list; do
-    out=$(cd /verif && timeout 1500 ./check "$c" 2>&1); rc=$?
+    out=$(cd $V && timeout 1500 ./check "$c" 2>&1); rc=$?
     line=$(echo "$out" | grep -E -A1 "^(VIOLATION|OK)" | head -2 | tr '\n' ' ' | cut -c1-500)
     echo "$c exit=$rc $line" >> $d/${MATRIX_OUT:-matrix.txt}
   done
   git -C $R checkout -- .
-  (cd /verif && git checkout -- evidence 2>/dev/null; true)
+  (cd $V && git checkout -- evidence 2>/dev/null; true)
   echo "done $name"
 done
 [ -n "${SEED_WT:-}" ] && { cd /; git -C /repo worktree remove --force "$R"; unset VERIF_REPO; }
-(cd /verif && ./check --setup >/dev/null 2>&1)   # leave coq/Gen regenerated from the restored /repo
+(cd $V && ./check --setup >/dev/null 2>&1)   # leave coq/Gen regenerated from the restored /repo
 echo MATRIXDONE
